@@ -175,7 +175,7 @@ Proof.
   destruct (Z_lt_le_dec ProtocolMaxMsgSize size) as [Hbig|Hsmall].
   - unfold handle. rewrite size_gate by exact Hbig. discriminate.
   - rewrite handle_size_irrelevant by exact Hsmall.
-    destruct r as [|h amount|number amount|items|code|code|code]; cbn [wf_req] in Hwf.
+    destruct r as [|h amount|number amount|items|code|code|code|own]; cbn [wf_req] in Hwf.
     + discriminate.
     + destruct Hwf as [Ha Hh]. destruct (get_hashes_outcome H h amount HH Ha Hh) as [l [-> _]]. discriminate.
     + destruct Hwf as [Hn Ha]. destruct (from_number_outcome H number amount HH Hn Ha) as [l [-> _]]. discriminate.
@@ -183,6 +183,8 @@ Proof.
     + discriminate.
     + discriminate.
     + unfold handle, handle_gen. replace (ProtocolMaxMsgSize <? 0) with false by reflexivity. apply undecodable_cases.
+    + unfold handle, handle_gen. replace (ProtocolMaxMsgSize <? 0) with false by reflexivity.
+      destruct (forallb (fun b => b) own); discriminate.
 Qed.
 
 Lemma hashes_bounded H size r l : 1 <= H < two63 -> wf_req H r -> handle H size r = OHashes l -> Z.of_nat (length l) <= MaxHashFetch.
@@ -191,20 +193,22 @@ Proof.
   destruct (Z_lt_le_dec ProtocolMaxMsgSize size) as [Hbig|Hsmall].
   - unfold handle in Hh. rewrite size_gate in Hh by exact Hbig. discriminate.
   - rewrite handle_size_irrelevant in Hh by exact Hsmall.
-    destruct r as [|h amount|number amount|items|code|code|code]; cbn [wf_req] in Hwf; try discriminate.
+    destruct r as [|h amount|number amount|items|code|code|code|own]; cbn [wf_req] in Hwf; try discriminate.
     + destruct Hwf as [Ha Hx]. destruct (get_hashes_outcome H h amount HH Ha Hx) as [l' [E Hl]]. rewrite E in Hh. inversion Hh; subst. exact Hl.
     + destruct Hwf as [Hn Ha]. destruct (from_number_outcome H number amount HH Hn Ha) as [l' [E Hl]]. rewrite E in Hh. inversion Hh; subst. exact Hl.
     + unfold handle, handle_gen in Hh. replace (ProtocolMaxMsgSize <? 0) with false in Hh by reflexivity.
       exfalso. eapply gather_blocks_not_hashes. exact Hh.
     + unfold handle, handle_gen in Hh. replace (ProtocolMaxMsgSize <? 0) with false in Hh by reflexivity.
       exfalso. eapply (proj1 (proj2 (undecodable_cases code))). exact Hh.
+    + unfold handle, handle_gen in Hh. replace (ProtocolMaxMsgSize <? 0) with false in Hh by reflexivity.
+      destruct (forallb (fun b => b) own); discriminate.
 Qed.
 
 Lemma blocks_bounded H size r l tot : handle H size r = OBlocks l tot -> Z.of_nat (length l) <= MaxBlockFetch.
 Proof.
   intros Hh. unfold handle, handle_gen in Hh.
   destruct (ProtocolMaxMsgSize <? size); [discriminate|].
-  destruct r as [|h amount|number amount|items|code|code|code]; try discriminate.
+  destruct r as [|h amount|number amount|items|code|code|code|own]; try discriminate.
   - destruct (hashes_from_hash true H h (clamp MaxHashFetch amount)); discriminate.
   - destruct (by_height H (u64 (number + clamp MaxHashFetch amount - 1))) as [l0|].
     + destruct (l0 <? number); [discriminate|]. destruct (hashes_from_hash true H (by_height H l0) (clamp MaxHashFetch amount)); discriminate.
@@ -212,6 +216,7 @@ Proof.
       destruct (hashes_from_hash true H (by_height H H) _); discriminate.
   - eapply (gather_blocks_spec true H items 0 0 []); try reflexivity; try (unfold MaxBlockFetch; lia). exact Hh.
   - exfalso. eapply (proj2 (proj2 (undecodable_cases code))). exact Hh.
+  - destruct (forallb (fun b => b) own); discriminate.
 Qed.
 
 (* the 10 MiB clause for replies: the momentums of a blocks reply take at most ProtocolMaxMsgSize - 16 bytes, so the
@@ -220,7 +225,7 @@ Lemma blocks_bytes_bounded H size r l tot : wf_req H r -> handle H size r = OBlo
 Proof.
   intros Hwf Hh. unfold handle, handle_gen in Hh.
   destruct (ProtocolMaxMsgSize <? size); [discriminate|].
-  destruct r as [|h amount|number amount|items|code|code|code]; try discriminate.
+  destruct r as [|h amount|number amount|items|code|code|code|own]; try discriminate.
   - destruct (hashes_from_hash true H h (clamp MaxHashFetch amount)); discriminate.
   - destruct (by_height H (u64 (number + clamp MaxHashFetch amount - 1))) as [l0|].
     + destruct (l0 <? number); [discriminate|]. destruct (hashes_from_hash true H (by_height H l0) (clamp MaxHashFetch amount)); discriminate.
@@ -229,6 +234,7 @@ Proof.
   - cbn [wf_req] in Hwf. pose proof (gather_blocks_bytes H items 0 0 [] l tot Hwf ltac:(unfold blocks_byte_limit, ProtocolMaxMsgSize; lia) Hh) as Hb.
     unfold blocks_byte_limit in Hb. lia.
   - exfalso. eapply (proj2 (proj2 (undecodable_cases code))). exact Hh.
+  - destruct (forallb (fun b => b) own); discriminate.
 Qed.
 
 (* what the hash-based request returns: the `amount` (capped) momentums ending at the named one, ascending *)
@@ -371,3 +377,21 @@ Proof.
   2:{ repeat split; try discriminate. }
   repeat split; try discriminate; try (inversion H; subst; lia).
 Qed.
+
+(* only momentums that hash to the hash they state reach the downloader and the fetcher *)
+Lemma forged_momentum_not_delivered H size own : handle H size (RBlocks own) = ONoReply -> Forall (fun b => b = true) own.
+Proof.
+  unfold handle, handle_gen. destruct (ProtocolMaxMsgSize <? size); [discriminate|].
+  destruct (forallb (fun b => b) own) eqn:E; [|discriminate]. intros _.
+  apply Forall_forall. intros b Hb. rewrite forallb_forall in E. exact (E b Hb).
+Qed.
+Lemma forged_momentum_is_protocol_error H size own : size <= ProtocolMaxMsgSize -> In false own ->
+  handle H size (RBlocks own) = OErr ErrDecode.
+Proof.
+  intros Hs Hin. unfold handle, handle_gen. destruct (ProtocolMaxMsgSize <? size) eqn:E0; [lia|].
+  destruct (forallb (fun b => b) own) eqn:E; [|reflexivity].
+  rewrite forallb_forall in E. specialize (E false Hin). discriminate.
+Qed.
+(* record (fixed in /repo, d69e7b3): a momentum stating a requested hash over another height was delivered *)
+Lemma forged_momentum_delivered_refuted : exists own, In false own /\ blocks_delivery_unchecked own = ONoReply.
+Proof. exists [true; false]. split; [right; left; reflexivity|reflexivity]. Qed.
